@@ -838,4 +838,351 @@ theorem halfOps_fwd (ops : List IdxOp) (i s : Nat) (hs : s ≤ 1) :
     | none => rfl
     | some m => simpa using ih m
 
+/-! ### helper facts for the tracking branch of `statusGC` -/
+
+theorem runOps_map {α β} (f : α → β) (ops : List IdxOp) (l : List α) (h : okOps ops l.length) :
+    runOps ops (l.map f) = (runOps ops l).map f := by
+  apply List.ext_getElem?
+  intro j
+  rw [runOps_getElem? ops (l.map f) (by simpa using h), List.getElem?_map, List.getElem?_map, runOps_getElem? ops l h]
+
+/-- `remap` in closed form -/
+def remapFn (new : List (Option Nat)) (h : Int) : Int :=
+  if h < 0 then h else if h.toNat ≥ new.length then h else Spec.optInt (new.getD h.toNat none)
+
+theorem remap_eq (new : List (Option Nat)) (t : List Int) :
+    remap new t = (t.map (remapFn new), t.any (fun h => !(h < 0) && decide (h.toNat ≥ new.length))) := by
+  unfold remap
+  suffices ∀ (acc : List Int) (b : Bool),
+      List.foldl (fun (acc : List Int × Bool) h =>
+        if h < 0 then (acc.1 ++ [h], acc.2)
+        else if h.toNat ≥ new.length then (acc.1 ++ [h], true)
+        else (acc.1 ++ [Spec.optInt (new.getD h.toNat none)], acc.2)) (acc, b) t
+      = (acc ++ t.map (remapFn new), b || t.any (fun h => !(h < 0) && decide (h.toNat ≥ new.length))) by
+    simpa using this [] false
+  induction t with
+  | nil => intro acc b; simp
+  | cons x t ih =>
+    intro acc b
+    simp only [List.foldl_cons, List.map_cons, List.any_cons]
+    by_cases h1 : x < 0
+    · simp only [h1, if_true]; rw [ih]; simp [remapFn, h1]
+    · by_cases h2 : x.toNat ≥ new.length
+      · simp only [h1, h2, if_true, if_false]; rw [ih]; simp [remapFn, h1, h2]
+      · simp only [h1, h2, if_false]; rw [ih]; simp [remapFn, h1, h2]
+
+theorem find_tmp (cs : List Col) (c : Col) (key : String) (hf : ∀ x ∈ cs, x.key ≠ key) (hc : c.key = key) :
+    tmpVals (cs ++ [c]) key = c.vals := by
+  unfold tmpVals
+  rw [List.find?_append]
+  have : cs.find? (fun x => x.key == key) = none := by
+    rw [List.find?_eq_none]; intro x hx; simpa using hf x hx
+  simp [this, hc]
+
+theorem filter_tmp (cs : List Col) (c : Col) (key : String) (hf : ∀ x ∈ cs, x.key ≠ key) (hc : c.key = key) :
+    (cs ++ [c]).filter (fun x => x.key != key) = cs := by
+  rw [List.filter_append]
+  have : cs.filter (fun x => x.key != key) = cs := by
+    rw [List.filter_eq_self]; intro x hx; simpa using hf x hx
+  simp [this, hc]
+
+/-! ### nothing is pending after `collect_garbage` -/
+
+def Cnt (k : Kernel) : Nat × Nat × Nat × Nat := (k.nDelV, k.nDelE, k.nDelF, k.nDelC)
+
+theorem sweep_cnt (k : Kernel) (hd : k.deferred = false) (n : Nat) (isDel : Kernel → Nat → Bool)
+    (unflag core : Kernel → Nat → Kernel)
+    (hu : ∀ k i, Cnt (unflag k i) = Cnt k ∧ (unflag k i).deferred = k.deferred)
+    (hc : ∀ k i, k.deferred = false → Cnt (core k i) = Cnt k ∧ (core k i).deferred = false) :
+    Cnt (gcSweep k n isDel unflag core) = Cnt k ∧ (gcSweep k n isDel unflag core).deferred = false :=
+  gcSweep_frame Cnt (fun k => k.deferred = false) isDel unflag core
+    (fun k i hk => ⟨(hu k i).1, by rw [(hu k i).2]; exact hk⟩) (fun k i hk => hc k i hk) k hd n
+
+theorem gc_counts (k : Kernel) (hd : k.deferred = false) :
+    (Cnt (gcCells k) = (k.nDelV, k.nDelE, k.nDelF, 0) ∧ (gcCells k).deferred = false) ∧
+    (Cnt (gcFaces k) = (k.nDelV, k.nDelE, 0, k.nDelC) ∧ (gcFaces k).deferred = false) ∧
+    (Cnt (gcEdges k) = (k.nDelV, 0, k.nDelF, k.nDelC) ∧ (gcEdges k).deferred = false) ∧
+    (Cnt (gcVerts k) = (0, k.nDelE, k.nDelF, k.nDelC) ∧ (gcVerts k).deferred = false) := by
+  have h1 := sweep_cnt k hd k.nC cDeleted (fun k i => { k with cDel := k.cDel.set i false }) deleteCellCore
+    (fun _ _ => ⟨rfl, rfl⟩) (fun k i h => ⟨by
+      unfold Cnt; rw [deleteCellCore_nDelV_imm k i h, deleteCellCore_nDelE_imm k i h, deleteCellCore_nDelF_imm k i h,
+        deleteCellCore_nDelC_imm k i h], by rw [deleteCellCore_deferred]; exact h⟩)
+  have h2 := sweep_cnt k hd k.nF fDeleted (fun k i => { k with fDel := k.fDel.set i false }) deleteFaceCore
+    (fun _ _ => ⟨rfl, rfl⟩) (fun k i h => ⟨by
+      unfold Cnt; rw [deleteFaceCore_nDelV_imm k i h, deleteFaceCore_nDelE_imm k i h, deleteFaceCore_nDelF_imm k i h,
+        deleteFaceCore_nDelC_imm k i h], by rw [deleteFaceCore_deferred]; exact h⟩)
+  have h3 := sweep_cnt k hd k.nE eDeleted (fun k i => { k with eDel := k.eDel.set i false }) deleteEdgeCore
+    (fun _ _ => ⟨rfl, rfl⟩) (fun k i h => ⟨by
+      unfold Cnt; rw [deleteEdgeCore_nDelV_imm k i h, deleteEdgeCore_nDelE_imm k i h, deleteEdgeCore_nDelF_imm k i h,
+        deleteEdgeCore_nDelC_imm k i h], by rw [deleteEdgeCore_deferred]; exact h⟩)
+  have h4 := sweep_cnt k hd k.nV vDeleted (fun k i => { k with vDel := k.vDel.set i false }) deleteVertexCore
+    (fun _ _ => ⟨rfl, rfl⟩) (fun k i h => ⟨by
+      unfold Cnt; rw [deleteVertexCore_nDelV_imm k i h, deleteVertexCore_nDelE_imm k i h, deleteVertexCore_nDelF_imm k i h,
+        deleteVertexCore_nDelC_imm k i h], by rw [deleteVertexCore_deferred]; exact h⟩)
+  unfold Cnt at h1 h2 h3 h4
+  simp only [Prod.mk.injEq] at h1 h2 h3 h4
+  unfold gcCells gcFaces gcEdges gcVerts Cnt
+  simp only [Prod.mk.injEq]
+  exact ⟨⟨⟨h1.1.1, h1.1.2.1, h1.1.2.2.1, trivial⟩, h1.2⟩, ⟨⟨h2.1.1, h2.1.2.1, trivial, h2.1.2.2.2⟩, h2.2⟩,
+         ⟨⟨h3.1.1, trivial, h3.1.2.2.1, h3.1.2.2.2⟩, h3.2⟩, ⟨⟨trivial, h4.1.2.1, h4.1.2.2.1, h4.1.2.2.2⟩, h4.2⟩⟩
+
+attribute [local irreducible] gcCells gcFaces gcEdges gcVerts in
+theorem collectGarbage_clean (k : Kernel) (hd : k.deferred = true) :
+    k.collectGarbage.needsGC = false ∧ k.collectGarbage.deferred = true := by
+  unfold collectGarbage
+  split
+  · rename_i h
+    refine ⟨?_, hd⟩
+    simpa [hd] using h
+  · have a := (gc_counts { k with deferred := false } rfl).1
+    have b := (gc_counts _ a.2).2.1
+    have c := (gc_counts _ b.2).2.2.1
+    have d := (gc_counts _ c.2).2.2.2
+    unfold Cnt at a b c d
+    simp only [Prod.mk.injEq] at a b c d
+    refine ⟨?_, rfl⟩
+    unfold needsGC
+    simp only [d.1.1, d.1.2.1, d.1.2.2.1, d.1.2.2.2, c.1.2.1, c.1.2.2.1, c.1.2.2.2, b.1.2.2.1, b.1.2.2.2, a.1.2.2.2]
+    decide
+
+
+/-! ## Part C: the tracking branch of `statusGC` -/
+
+/-- no user column carries the name the model gives to a temporary index property (the C++ refers
+    to them by pointer; the names are a modelling device) -/
+def Fresh (k : Kernel) : Prop :=
+  (∀ c ∈ k.props.v, c.key ≠ tmpV) ∧ (∀ c ∈ k.props.he, c.key ≠ tmpHE) ∧
+  (∀ c ∈ k.props.hf, c.key ≠ tmpHF) ∧ (∀ c ∈ k.props.c, c.key ≠ tmpC)
+
+theorem colsLen_snoc (cs : List Col) (key : String) (n : Nat) (h : ColsLen cs n) : ColsLen (cs ++ [idxCol key n]) n := by
+  intro c hc
+  rcases List.mem_append.1 hc with h1 | h1
+  · exact h c h1
+  · have : c = idxCol key n := by simpa using h1
+    subst this; simp [idxCol]
+
+theorem lenInv_addTmp (k : Kernel) (h : LenInv k) : LenInv (addTmp k) :=
+  { vDel := h.vDel, eDel := h.eDel, fDel := h.fDel, cDel := h.cDel, outHes := h.outHes, incHfs := h.incHfs,
+    incCell := h.incCell, pe := h.pe, pf := h.pf,
+    pv := colsLen_snoc _ _ _ h.pv, phe := colsLen_snoc _ _ _ h.phe, phf := colsLen_snoc _ _ _ h.phf,
+    pc := colsLen_snoc _ _ _ h.pc }
+
+theorem collectGarbage_nothing (k : Kernel) (h : k.needsGC = false) : k.collectGarbage = k := by
+  unfold collectGarbage; simp [h]
+
+/-- what `statusGC` computes when handles are tracked, in terms of one `Log` -/
+structure TrackingFacts (k1 : Kernel) (t : Tracked) (r : Result) (L : Log) : Prop where
+  okV : okOps L.v k1.nV
+  okE : okOps L.e k1.nE
+  okF : okOps L.f k1.nF
+  okC : okOps L.c k1.nC
+  nV : r.k.nV = lenOps L.v k1.nV
+  nE : r.k.nE = lenOps L.e k1.nE
+  nF : r.k.nF = lenOps L.f k1.nF
+  nC : r.k.nC = lenOps L.c k1.nC
+  /-- every property column of the mesh (identity tokens, status, user data) is moved by `L` -/
+  props : r.k.props = L.apply k1.props
+  /-- the `new_*` arrays are the composed per-deletion index maps -/
+  newV : r.newV = (List.range k1.nV).map (fwdOps L.v)
+  newHE : r.newHE = (List.range k1.nHE).map (fwdOps (halfOps L.e))
+  newHF : r.newHF = (List.range k1.nHF).map (fwdOps (halfOps L.f))
+  newC : r.newC = (List.range k1.nC).map (fwdOps L.c)
+  tv : r.t.v = t.v.map (remapFn r.newV)
+  the : r.t.he = t.he.map (remapFn r.newHE)
+  thf : r.t.hf = t.hf.map (remapFn r.newHF)
+  tc : r.t.c = t.c.map (remapFn r.newC)
+  clean : r.k.needsGC = false
+
+theorem tmp_after (cs : List Col) (key : String) (n : Nat) (ops : List IdxOp) (hf : ∀ x ∈ cs, x.key ≠ key) (hok : okOps ops n) :
+    tmpVals ((cs ++ [idxCol key n]).map (Col.runOps ops)) key = (runOps ops (List.range n)).map Int.ofNat ∧
+    ((cs ++ [idxCol key n]).map (Col.runOps ops)).filter (fun x => x.key != key) = cs.map (Col.runOps ops) := by
+  rw [List.map_append, List.map_singleton]
+  have hf' : ∀ x ∈ cs.map (Col.runOps ops), x.key ≠ key := by
+    intro x hx
+    obtain ⟨y, hy, rfl⟩ := List.mem_map.1 hx
+    simpa using hf y hy
+  refine ⟨?_, filter_tmp _ _ key hf' rfl⟩
+  rw [find_tmp _ _ key hf' rfl]
+  simp only [Col.runOps_vals, idxCol]
+  exact runOps_map Int.ofNat ops (List.range n) (by simpa using hok)
+
+theorem statusGC_tracking (k : Kernel) (man : Bool) (t : Tracked) (hne : t.isEmpty = false)
+    (hi : LenInv (markPhase k man)) (hfr : Fresh (markPhase k man)) (hdef : (markPhase k man).deferred = true) :
+    ∃ L, TrackingFacts (markPhase k man) t (statusGC k man t) L := by
+  have hia := lenInv_addTmp _ hi
+  obtain ⟨L, tr⟩ := collectGarbage_trans _ hia
+  have hda : (addTmp (markPhase k man)).deferred = true := hdef
+  obtain ⟨cl, cd⟩ := collectGarbage_clean _ hda
+  refine ⟨L, ?_⟩
+  generalize hk1 : markPhase k man = k1 at *
+  have okV : okOps L.v k1.nV := tr.okV
+  have okE : okOps L.e k1.nE := tr.okE
+  have okF : okOps L.f k1.nF := tr.okF
+  have okC : okOps L.c k1.nC := tr.okC
+  have okHE := (halfOps_ok L.e k1.nE okE)
+  have okHF := (halfOps_ok L.f k1.nF okF)
+  have pv := tmp_after k1.props.v tmpV k1.nV L.v hfr.1 okV
+  have phe := tmp_after k1.props.he tmpHE k1.nHE (halfOps L.e) hfr.2.1 okHE.1
+  have phf := tmp_after k1.props.hf tmpHF k1.nHF (halfOps L.f) hfr.2.2.1 okHF.1
+  have pc := tmp_after k1.props.c tmpC k1.nC L.c hfr.2.2.2 okC
+  have hp := tr.props
+  have sv := scatter_runOps L.v k1.nV okV
+  have she := scatter_runOps (halfOps L.e) k1.nHE okHE.1
+  have shf := scatter_runOps (halfOps L.f) k1.nHF okHF.1
+  have sc := scatter_runOps L.c k1.nC okC
+  -- the state after the collection, temporary columns dropped
+  have hdrop : (dropTmp (addTmp k1).collectGarbage).props = L.apply k1.props := by
+    simp only [dropTmp]
+    rw [hp]
+    simp only [Log.apply, addTmp]
+    rw [pv.2, phe.2, phf.2, pc.2]
+  have hnoop : (dropTmp (addTmp k1).collectGarbage).enableDeferred k.deferred =
+      { dropTmp (addTmp k1).collectGarbage with deferred := k.deferred } := by
+    unfold enableDeferred
+    have : (dropTmp (addTmp k1).collectGarbage).collectGarbage = dropTmp (addTmp k1).collectGarbage :=
+      collectGarbage_nothing _ cl
+    simp only [this, ite_self]
+  unfold statusGC
+  simp only [hne, hk1, Bool.not_false, if_true]
+  have ev : tmpVals (addTmp k1).collectGarbage.props.v tmpV = (runOps L.v (List.range k1.nV)).map Int.ofNat := by
+    rw [hp]; exact pv.1
+  have ehe : tmpVals (addTmp k1).collectGarbage.props.he tmpHE = (runOps (halfOps L.e) (List.range k1.nHE)).map Int.ofNat := by
+    rw [hp]; exact phe.1
+  have ehf : tmpVals (addTmp k1).collectGarbage.props.hf tmpHF = (runOps (halfOps L.f) (List.range k1.nHF)).map Int.ofNat := by
+    rw [hp]; exact phf.1
+  have ec : tmpVals (addTmp k1).collectGarbage.props.c tmpC = (runOps L.c (List.range k1.nC)).map Int.ofNat := by
+    rw [hp]; exact pc.1
+  rw [ev, ehe, ehf, ec, sv, she, shf, sc, hnoop]
+  exact { okV := okV, okE := okE, okF := okF, okC := okC, nV := tr.nV, nE := tr.nE, nF := tr.nF, nC := tr.nC,
+          props := hdrop, newV := rfl, newHE := rfl, newHF := rfl, newC := rfl,
+          tv := by simp [remap_eq], the := by simp [remap_eq], thf := by simp [remap_eq], tc := by simp [remap_eq],
+          clean := cl }
+
+
+/-! ## Part D: the mark phase (deferred mode) moves nothing -/
+
+/-- what the mark phase keeps: deferred mode stays on, no property storage and no vertex count
+    changes (deferred deletion only sets flags and unlinks caches), the array lengths stay consistent -/
+structure Q (k0 k : Kernel) : Prop where
+  dfr : k.deferred = true
+  props : k.props = k0.props
+  nV : k.nV = k0.nV
+  len : LenInv k
+
+theorem Q.trans' {a b c : Kernel} (h1 : Q a b) (h2 : Q b c) : Q a c :=
+  ⟨h2.dfr, h2.props.trans h1.props, h2.nV.trans h1.nV, h2.len⟩
+
+theorem foldl_Q {β} (step : Kernel → β → Kernel) (hs : ∀ k x, k.deferred = true → LenInv k → Q k (step k x))
+    (xs : List β) (k : Kernel) (hd : k.deferred = true) (hi : LenInv k) : Q k (xs.foldl step k) := by
+  induction xs generalizing k with
+  | nil => exact ⟨hd, rfl, rfl, hi⟩
+  | cons x t ih =>
+    simp only [List.foldl_cons]
+    have a := hs k x hd hi
+    exact a.trans' (ih _ a.dfr a.len)
+
+theorem deleteCellCore_Q (k : Kernel) (h : Nat) (hd : k.deferred = true) (hi : LenInv k) : Q k (k.deleteCellCore h) :=
+  ⟨by rw [deleteCellCore_deferred]; exact hd, by unfold deleteCellCore; simp [hd], deleteCellCore_nV k h, lenInv_deleteCellCore k h hi⟩
+theorem deleteFaceCore_Q (k : Kernel) (h : Nat) (hd : k.deferred = true) (hi : LenInv k) : Q k (k.deleteFaceCore h) :=
+  ⟨by rw [deleteFaceCore_deferred]; exact hd, by unfold deleteFaceCore; simp [hd], deleteFaceCore_nV k h, lenInv_deleteFaceCore k h hi⟩
+theorem deleteEdgeCore_Q (k : Kernel) (h : Nat) (hd : k.deferred = true) (hi : LenInv k) : Q k (k.deleteEdgeCore h) :=
+  ⟨by rw [deleteEdgeCore_deferred]; exact hd, by unfold deleteEdgeCore; simp [hd], deleteEdgeCore_nV k h, lenInv_deleteEdgeCore k h hi⟩
+theorem deleteVertexCore_Q (k : Kernel) (h : Nat) (hd : k.deferred = true) (hi : LenInv k) (hh : h < k.nV) :
+    Q k (k.deleteVertexCore h) :=
+  ⟨by rw [deleteVertexCore_deferred]; exact hd, by unfold deleteVertexCore; simp [hd],
+   by rw [deleteVertexCore_nV]; simp [hd], lenInv_deleteVertexCore k h hi hh⟩
+
+theorem deleteCell_Q (k : Kernel) (c : Nat) (hd : k.deferred = true) (hi : LenInv k) : Q k (k.deleteCell c) :=
+  deleteCellCore_Q k c hd hi
+
+theorem deleteFace_Q (k : Kernel) (f : Nat) (hd : k.deferred = true) (hi : LenInv k) : Q k (k.deleteFace f) := by
+  unfold deleteFace
+  have a := foldl_Q deleteCellCore deleteCellCore_Q (k.incidentCells [f]).reverse k hd hi
+  exact a.trans' (deleteFaceCore_Q _ f a.dfr a.len)
+
+theorem deleteEdge_Q (k : Kernel) (e : Nat) (hd : k.deferred = true) (hi : LenInv k) : Q k (k.deleteEdge e) := by
+  unfold deleteEdge
+  have a := foldl_Q deleteCellCore deleteCellCore_Q (k.incidentCells (k.incidentFaces [e])).reverse k hd hi
+  have b := foldl_Q deleteFaceCore deleteFaceCore_Q (k.incidentFaces [e]).reverse _ a.dfr a.len
+  exact (a.trans' b).trans' (deleteEdgeCore_Q _ e b.dfr b.len)
+
+theorem deleteVertex_Q (k : Kernel) (v : Nat) (hd : k.deferred = true) (hi : LenInv k) (hv : v < k.nV) : Q k (k.deleteVertex v) := by
+  unfold deleteVertex
+  have a := foldl_Q deleteCellCore deleteCellCore_Q (k.incidentCells (k.incidentFaces (k.incidentEdges [v]))).reverse k hd hi
+  have b := foldl_Q deleteFaceCore deleteFaceCore_Q (k.incidentFaces (k.incidentEdges [v])).reverse _ a.dfr a.len
+  have c := foldl_Q deleteEdgeCore deleteEdgeCore_Q (k.incidentEdges [v]).reverse _ b.dfr b.len
+  have abc := (a.trans' b).trans' c
+  exact abc.trans' (deleteVertexCore_Q _ v c.dfr c.len (by rw [abc.nV]; exact hv))
+
+/-- a loop `for i in 0..n-1: if cond k i then del k i` whose deletions keep `Q` -/
+theorem loop_Q (n : Nat) (cond : Kernel → Nat → Bool) (del : Kernel → Nat → Kernel) (bound : Kernel → Nat)
+    (hb : ∀ k k', Q k k' → bound k' = bound k)
+    (hs : ∀ k i, k.deferred = true → LenInv k → i < bound k → Q k (del k i))
+    (k : Kernel) (hd : k.deferred = true) (hi : LenInv k) (hn : n ≤ bound k) :
+    Q k ((List.range n).foldl (fun k i => if cond k i then del k i else k) k) := by
+  suffices ∀ (xs : List Nat), (∀ x ∈ xs, x < bound k) → ∀ k', Q k k' →
+      Q k (xs.foldl (fun k i => if cond k i then del k i else k) k') from
+    this (List.range n) (fun x hx => Nat.lt_of_lt_of_le (List.mem_range.1 hx) hn) k ⟨hd, rfl, rfl, hi⟩
+  intro xs
+  induction xs with
+  | nil => intro _ k' q; exact q
+  | cons x t ih =>
+    intro hx k' q
+    simp only [List.foldl_cons]
+    apply ih (fun y hy => hx y (by simp [hy]))
+    split
+    · exact q.trans' (hs k' x q.dfr q.len (by rw [hb k k' q]; exact hx x (by simp)))
+    · exact q
+
+theorem enableVBU_Q (k : Kernel) (hd : k.deferred = true) (hi : LenInv k) : Q k (k.enableVBU true) :=
+  ⟨by unfold enableVBU; split <;> (try split) <;> simp_all, by unfold enableVBU; split <;> (try split) <;> simp_all,
+   by unfold enableVBU; split <;> (try split) <;> simp_all, lenInv_enableVBU k true hi⟩
+theorem enableEBU_Q (k : Kernel) (hd : k.deferred = true) (hi : LenInv k) : Q k (k.enableEBU true) :=
+  ⟨by unfold enableEBU; split <;> (try split) <;> (try split) <;> simp_all [reorderAll],
+   by unfold enableEBU; split <;> (try split) <;> (try split) <;> simp_all [reorderAll],
+   by unfold enableEBU; split <;> (try split) <;> (try split) <;> simp_all [reorderAll], lenInv_enableEBU k true hi⟩
+theorem enableFBU_Q (k : Kernel) (hd : k.deferred = true) (hi : LenInv k) : Q k (k.enableFBU true) :=
+  ⟨by unfold enableFBU; split <;> (try split) <;> (try split) <;> simp_all [reorderAll],
+   by unfold enableFBU; split <;> (try split) <;> (try split) <;> simp_all [reorderAll],
+   by unfold enableFBU; split <;> (try split) <;> (try split) <;> simp_all [reorderAll], lenInv_enableFBU k true hi⟩
+
+theorem markPhase_Q (k : Kernel) (man : Bool) (hi : LenInv k) : Q k (markPhase k man) := by
+  have q0 : Q k (k.enableDeferred true) := by
+    have : k.enableDeferred true = { k with deferred := true } := by unfold enableDeferred; simp
+    rw [this]; exact ⟨rfl, rfl, rfl, lenInv_withDeferred k true hi⟩
+  have q1 : Q _ (markedVerts (k.enableDeferred true)) :=
+    loop_Q _ (fun k v => !k.vDeleted v && markedV k v) deleteVertex (·.nV) (fun _ _ q => q.nV)
+      (fun k i hd hi hb => deleteVertex_Q k i hd hi hb) _ q0.dfr q0.len (Nat.le_refl _)
+  have q2 : Q _ (markedEdges (markedVerts (k.enableDeferred true))) :=
+    loop_Q _ (fun k e => !k.eDeleted e && markedE k e) deleteEdge (fun _ => (markedVerts (k.enableDeferred true)).nE) (fun _ _ _ => rfl)
+      (fun k i hd hi _ => deleteEdge_Q k i hd hi) _ q1.dfr q1.len (Nat.le_refl _)
+  have q3 : Q _ (markedFaces (markedEdges (markedVerts (k.enableDeferred true)))) :=
+    loop_Q _ (fun k f => !k.fDeleted f && markedF k f) deleteFace (fun _ => (markedEdges (markedVerts (k.enableDeferred true))).nF) (fun _ _ _ => rfl)
+      (fun k i hd hi _ => deleteFace_Q k i hd hi) _ q2.dfr q2.len (Nat.le_refl _)
+  have q4 : Q _ (markedCells (markedFaces (markedEdges (markedVerts (k.enableDeferred true))))) :=
+    loop_Q _ (fun k c => !k.cDeleted c && markedC k c) deleteCell (fun _ => (markedFaces (markedEdges (markedVerts (k.enableDeferred true)))).nC) (fun _ _ _ => rfl)
+      (fun k i hd hi _ => deleteCell_Q k i hd hi) _ q3.dfr q3.len (Nat.le_refl _)
+  have q := (((q0.trans' q1).trans' q2).trans' q3).trans' q4
+  unfold markPhase
+  simp only []
+  generalize markedCells (markedFaces (markedEdges (markedVerts (k.enableDeferred true)))) = km at q
+  cases man
+  · simpa using q
+  · simp only [if_true]
+    have b1 := enableVBU_Q km q.dfr q.len
+    have b2 := enableEBU_Q _ b1.dfr b1.len
+    have b3 := enableFBU_Q _ b2.dfr b2.len
+    have b : Q km (enableAllBU km) := (b1.trans' b2).trans' b3
+    have m1 : Q _ (manifoldFaces (enableAllBU km)) :=
+      loop_Q _ (fun k f => !k.fDeleted f && (k.cellOf (heOf f 0)).isNone && (k.cellOf (heOf f 1)).isNone) deleteFace
+        (fun _ => (enableAllBU km).nF) (fun _ _ _ => rfl) (fun k i hd hi _ => deleteFace_Q k i hd hi) _ b.dfr b.len (Nat.le_refl _)
+    have m2 : Q _ (manifoldEdges (manifoldFaces (enableAllBU km))) :=
+      loop_Q _ (fun k e => !k.eDeleted e && (k.hfsOf (heOf e 0)).length == 0) deleteEdge
+        (fun _ => (manifoldFaces (enableAllBU km)).nE) (fun _ _ _ => rfl) (fun k i hd hi _ => deleteEdge_Q k i hd hi) _ m1.dfr m1.len (Nat.le_refl _)
+    have m3 : Q _ (manifoldVerts (manifoldEdges (manifoldFaces (enableAllBU km)))) :=
+      loop_Q _ (fun k v => !k.vDeleted v && (k.outOf v).length == 0) deleteVertex (·.nV) (fun _ _ q => q.nV)
+        (fun k i hd hi hb => deleteVertex_Q k i hd hi hb) _ m2.dfr m2.len (Nat.le_refl _)
+    exact (((q.trans' b).trans' m1).trans' m2).trans' m3
+
+
 end OVM.Status
